@@ -17,6 +17,7 @@ pub struct SentObs {
     pub ntokens: usize,
     pub nnodes: usize,
     pub has_unk: bool,
+    pub alt: Vec<Vec<String>>,
 }
 
 fn dnode(r: &[i64; 8]) -> String {
@@ -24,6 +25,35 @@ fn dnode(r: &[i64; 8]) -> String {
         "(Build_dnode {} {} {} {} {} {} {} {})",
         r[0].max(0), r[1].max(0), r[2], r[3], r[4], r[5], r[6], cz(r[7])
     )
+}
+
+/// Coq terms of the tokens currently held by a worker.
+pub fn token_terms(worker: &vibrato::tokenizer::worker::Worker) -> (Vec<String>, bool) {
+    let mut tokens = vec![];
+    let mut has_unk = false;
+    for i in 0..worker.num_tokens() {
+        let t = worker.token(i);
+        let lex = t.lex_type() as u8;
+        has_unk |= lex == 2;
+        tokens.push(format!(
+            "(Build_dtoken {} {} {} {} {} {} {} {} {} {} {} {})",
+            t.range_char().start, t.range_char().end, t.range_byte().start, t.range_byte().end,
+            cstr(t.surface()), lex, t.word_idx().word_id, cstr(t.feature()), t.left_id(), t.right_id(),
+            cz(t.word_cost() as i64), cz(t.total_cost() as i64)
+        ));
+    }
+    (tokens, has_unk)
+}
+
+/// Tokens of `text` on a brand-new worker of the same tokenizer (None = panic).
+pub fn fresh_tokens(tokenizer: &vibrato::Tokenizer, text: &str) -> Option<Vec<String>> {
+    std::panic::catch_unwind(std::panic::AssertUnwindSafe(|| {
+        let mut w = tokenizer.new_worker();
+        w.reset_sentence(text);
+        w.tokenize();
+        token_terms(&w).0
+    }))
+    .ok()
 }
 
 pub fn observe(dict: &vibrato::Dictionary, worker: &mut vibrato::tokenizer::worker::Worker, text: &str, rng: &mut Rng, counting: bool) -> SentObs {
@@ -56,22 +86,10 @@ pub fn observe(dict: &vibrato::Dictionary, worker: &mut vibrato::tokenizer::work
     if res.is_err() {
         return SentObs {
             text: text.to_string(), outcome: 2, tokens: vec![], ends: "[]".into(), eos: "None".into(),
-            group: vec![], cinfos: cinfos_t, counts: None, ntokens: 0, nnodes: 0, has_unk: false,
+            group: vec![], cinfos: cinfos_t, counts: None, ntokens: 0, nnodes: 0, has_unk: false, alt: vec![],
         };
     }
-    let mut tokens = vec![];
-    let mut has_unk = false;
-    for i in 0..worker.num_tokens() {
-        let t = worker.token(i);
-        let lex = t.lex_type() as u8;
-        has_unk |= lex == 2;
-        tokens.push(format!(
-            "(Build_dtoken {} {} {} {} {} {} {} {} {} {} {} {})",
-            t.range_char().start, t.range_char().end, t.range_byte().start, t.range_byte().end,
-            cstr(t.surface()), lex, t.word_idx().word_id, cstr(t.feature()), t.left_id(), t.right_id(),
-            cz(t.word_cost() as i64), cz(t.total_cost() as i64)
-        ));
-    }
+    let (tokens, has_unk) = token_terms(worker);
     let (ends, eos, _nlists) = worker.verif_lattice_dump();
     let nnodes: usize = ends.iter().skip(1).map(|v| v.len()).sum();
     let (ends_t, eos_t) = if text.is_empty() {
@@ -82,16 +100,17 @@ pub fn observe(dict: &vibrato::Dictionary, worker: &mut vibrato::tokenizer::work
     SentObs {
         text: text.to_string(), outcome: 0, ntokens: tokens.len(), tokens, ends: ends_t, eos: eos_t,
         group: worker.verif_groupable(), cinfos: cinfos_t,
-        counts: if counting { worker.verif_counts() } else { None }, nnodes, has_unk,
+        counts: if counting { worker.verif_counts() } else { None }, nnodes, has_unk, alt: vec![],
     }
 }
 
 pub fn sentobs_term(o: &SentObs) -> String {
     format!(
-        "(Build_sentobs {} {} {} {} {} {} {} {})",
+        "(Build_sentobs {} {} {} {} {} {} {} {} {})",
         cstr(&o.text), o.outcome, clist(&o.tokens, |t| t.clone()), o.ends, o.eos,
         clist(&o.group, |g| cn(g)), o.cinfos,
-        copt(&o.counts, |(l, r)| format!("({}, {})", clist(l, |x| cn(x)), clist(r, |x| cn(x))))
+        copt(&o.counts, |(l, r)| format!("({}, {})", clist(l, |x| cn(x)), clist(r, |x| cn(x)))),
+        clist(&o.alt, |a| clist(a, |t| t.clone()))
     )
 }
 
@@ -103,7 +122,7 @@ pub struct CaseOut {
 }
 
 /// Builds the dictionary, runs the sentences on one worker, and returns the Coq term of the case.
-pub fn run_case(gd: &GenDict, ignore_space: bool, mgl: usize, sentences: &[String], rng: &mut Rng, counting: bool) -> CaseOut {
+pub fn run_case(gd: &GenDict, ignore_space: bool, mgl: usize, sentences: &[String], rng: &mut Rng, counting: bool, threads: usize) -> CaseOut {
     let built = gd.build();
     let head = |built: u8, conn: &str, space_res: u8, sents: &str| {
         format!(
@@ -134,7 +153,12 @@ pub fn run_case(gd: &GenDict, ignore_space: bool, mgl: usize, sentences: &[Strin
     }
     let mut sents = vec![];
     for s in sentences {
-        let o = observe(tokenizer.dictionary(), &mut worker, s, rng, counting);
+        let mut o = observe(tokenizer.dictionary(), &mut worker, s, rng, counting);
+        if o.outcome == 0 {
+            if let Some(f) = fresh_tokens(&tokenizer, s) {
+                o.alt.push(f);
+            }
+        }
         let stop = o.outcome != 0;
         sents.push(o);
         if stop {
@@ -145,8 +169,57 @@ pub fn run_case(gd: &GenDict, ignore_space: bool, mgl: usize, sentences: &[Strin
             }
         }
     }
+    if threads > 0 {
+        // independent workers of the one shared tokenizer on other threads, each going through
+        // the sentences in its own order while the others run
+        let texts: Vec<String> = sents.iter().map(|o| o.text.clone()).collect();
+        let results: Vec<Vec<Option<Vec<String>>>> = std::thread::scope(|sc| {
+            let hs: Vec<_> = (0..threads)
+                .map(|t| {
+                    let tk = &tokenizer;
+                    let texts = &texts;
+                    sc.spawn(move || {
+                        let mut out: Vec<Option<Vec<String>>> = vec![None; texts.len()];
+                        let mut w = tk.new_worker();
+                        for round in 0..3 {
+                            for k in 0..texts.len() {
+                                let i = (k * (t + 1) + t + round) % texts.len().max(1);
+                                let r = std::panic::catch_unwind(std::panic::AssertUnwindSafe(|| {
+                                    w.reset_sentence(&texts[i]);
+                                    w.tokenize();
+                                    token_terms(&w).0
+                                }));
+                                match r {
+                                    Ok(v) => out[i] = Some(v),
+                                    Err(_) => w = tk.new_worker(),
+                                }
+                            }
+                        }
+                        out
+                    })
+                })
+                .collect();
+            hs.into_iter().map(|h| h.join().unwrap_or_default()).collect()
+        });
+        for r in results {
+            for (i, v) in r.into_iter().enumerate() {
+                if let (Some(v), true) = (v, sents[i].outcome == 0) {
+                    sents[i].alt.push(v);
+                }
+            }
+        }
+    }
     let sents_t = clist(&sents, sentobs_term);
     CaseOut { term: head(0, &conn, 0, &sents_t), human, built: 0, sents }
+}
+
+#[allow(dead_code)]
+fn assert_send_sync<T: Send + Sync>() {}
+#[allow(dead_code)]
+fn static_bounds() {
+    // C04: "The tokenizer can be shared across threads" — a compile-time fact
+    assert_send_sync::<vibrato::Tokenizer>();
+    assert_send_sync::<vibrato::Dictionary>();
 }
 
 pub fn run(prop: &str, seed: u64, n: usize, outdir: &str, _corpus: Option<&str>) -> std::io::Result<()> {
@@ -199,7 +272,7 @@ pub fn run(prop: &str, seed: u64, n: usize, outdir: &str, _corpus: Option<&str>)
             sentences.push(dup); // repeated sentence
             sentences.insert(0, String::new()); // empty first line
         }
-        let out = run_case(&gd, ignore_space, mgl, &sentences, &mut rng, counting);
+        let out = run_case(&gd, ignore_space, mgl, &sentences, &mut rng, counting, if prop == "C04" { 3 } else { 0 });
         *dist.entry(format!("build_{}", ["ok", "err", "panic"][out.built as usize])).or_default() += 1;
         *dist.entry(format!("ignore_space_{}", ignore_space)).or_default() += 1;
         *dist.entry(format!("user_lexicon_{}", gd.user.is_some())).or_default() += 1;
